@@ -200,8 +200,13 @@ func c15(p *core.Program, r *core.Report) {
 		}
 	}
 	const rq = "four-endpoint-distances"
-	r.Rule(rq, "in the 2D segment-to-segment distance a returned minimum over point-to-segment distances (builtin min or math.Min, outside loops) takes each of the four end points as the point once: when the segments do not cross the closest approach is at an end point of one of them, and which one is not known in advance - a minimum over two `facing` end points chosen by one ordinate misses the other two", 1)
-	if fn := mustFn(p, r, rq, "xy", "DistanceFromLineToLine"); fn != nil && len(fn.Params) >= 4 {
+	r.Rule(rq, "in the 2D and 3D segment-to-segment distances a returned minimum over point-to-segment distances (builtin min or math.Min, outside loops) takes each of the four end points as the point once: when the segments do not cross the closest approach is at an end point of one of them, and which one is not known in advance - a minimum over two `facing` end points chosen by one ordinate misses the other two", 2)
+	for _, sib := range [][3]string{{"xy", "DistanceFromLineToLine", "DistanceFromPointToLine"}, {"xyz", "DistanceLineToLine", "DistancePointToLine"}} {
+		fn := mustFn(p, r, rq, sib[0], sib[1])
+		if fn == nil || len(fn.Params) < 4 {
+			continue
+		}
+		ptName := sib[2]
 		loops := eng.Loops(fn)
 		inLoop := func(in ssa.Instruction) bool {
 			for _, l := range loops {
@@ -226,7 +231,7 @@ func c15(p *core.Program, r *core.Report) {
 					}
 					return
 				}
-				if g := x.Call.StaticCallee(); g != nil && g.Name() == "DistanceFromPointToLine" && len(x.Call.Args) == 3 {
+				if g := x.Call.StaticCallee(); g != nil && g.Name() == ptName && len(x.Call.Args) == 3 {
 					if inLoop(x) {
 						*looped = true
 					}
@@ -265,6 +270,8 @@ func c15(p *core.Program, r *core.Report) {
 			r.OK(rq, short(fn)+"/no-explicit-minimum", p.Pos(fn.Pos()), true, "no minimum over end-point distances outside a loop (a table-driven loop is not decided)")
 		}
 	}
+	endpointCaseRule(p, r)
+	closestPointsOrthogonalRule(p, r, "closest-points-orthogonal")
 	const r1 = "zero-length-guards"
 	r.Rule(r1, "the 2D and 3D siblings test the same pairs of parameters for coordinate equality before the main computation: point-segment (lineStart,lineEnd); segment-segment {(line1Start,line1End),(line2Start,line2End)} - closed under exchanging the two segments - and on each guard's true edge they return the point-to-segment distance of a point of the degenerate segment to the other segment", 6)
 	type fnSpec struct {
@@ -357,4 +364,130 @@ func c15(p *core.Program, r *core.Report) {
 	denominatorSignRule(p, r, "denominator-sign-known", [][2]string{{"xy", "DistanceFromLineToLine"}, {"xyz", "DistanceLineToLine"}})
 	clampedProjectionRule(p, r, "segment-distance-clamped", [][2]string{{"xy", "DistanceFromPointToLine"}, {"xyz", "DistancePointToLine"}, {"xy", rdpDistanceName(p)}})
 	r.Assume("the distances themselves (accuracy, symmetry, zero on contact) are not decided")
+}
+
+// endpointCaseRule: a segment-to-segment distance may answer with the distance of ONE end point to the
+// other segment only where that is known to be the minimum: under the zero-length guard of the point's own
+// segment, or in a side region of the parameter square, i.e. where BOTH clamped parameters have been
+// range-tested on every path to the return.  The sign of one parameter alone does not decide which edge
+// of the square carries the minimum (corner regions).
+func endpointCaseRule(p *core.Program, r *core.Report) {
+	const rn = "endpoint-case-decides-both-parameters"
+	r.Rule(rn, "in the 2D and 3D segment-to-segment distances a result that is the distance of a single end point to the other segment (a point-to-segment call whose value only flows to the return, not into a minimum or comparison) lies on paths that all pass either the true edge of the zero-length test of the point's own segment, or range tests (against the constants 0 and 1) of two distinct clamped parameters: with only one parameter known to be out of range the other may be out of range too, and the minimum then may lie on the other segment's end point", 4)
+	for _, sib := range [][4]string{{"xy", "DistanceFromLineToLine", "DistanceFromPointToLine", "2"}, {"xyz", "DistanceLineToLine", "DistancePointToLine", "3"}} {
+		fn := mustFn(p, r, rn, sib[0], sib[1])
+		if fn == nil || len(fn.Params) < 4 || len(fn.Blocks) == 0 {
+			continue
+		}
+		dims := 2
+		if sib[3] == "3" {
+			dims = 3
+		}
+		guards := equalityGuards(fn, dims)
+		// clamped parameters: float values range-tested against both 0 and 1 somewhere in the function
+		type seen struct{ zero, one bool }
+		tested := map[ssa.Value]*seen{}
+		cmpOf := func(c eng.Cmp) (ssa.Value, float64, bool) {
+			switch c.Op {
+			case token.LSS, token.LEQ, token.GTR, token.GEQ:
+			default:
+				return nil, 0, false
+			}
+			if k, ok := floatConst(c.Y); ok {
+				return eng.StripConv(c.X), k, true
+			}
+			if k, ok := floatConst(c.X); ok {
+				return eng.StripConv(c.Y), k, true
+			}
+			return nil, 0, false
+		}
+		for _, b := range fn.Blocks {
+			if c, ok := eng.EdgeCmp(b, 0); ok {
+				if v, k, ok := cmpOf(c); ok && (k == 0 || k == 1) {
+					if tested[v] == nil {
+						tested[v] = &seen{}
+					}
+					if k == 0 {
+						tested[v].zero = true
+					} else {
+						tested[v].one = true
+					}
+				}
+			}
+		}
+		isParam := func(v ssa.Value) bool { t := tested[v]; return t != nil && t.zero && t.one }
+		mustEdges := func(b *ssa.BasicBlock) [][2]int { return mustEdgesTo(fn, b) }
+		var flowsOnlyToReturn func(v ssa.Value, depth int) bool
+		flowsOnlyToReturn = func(v ssa.Value, depth int) bool {
+			if depth > 4 {
+				return false
+			}
+			refs := eng.Referrers(v)
+			if len(refs) == 0 {
+				return false
+			}
+			for _, rf := range refs {
+				switch x := rf.(type) {
+				case *ssa.Return:
+				case *ssa.Phi:
+					if !flowsOnlyToReturn(x, depth+1) {
+						return false
+					}
+				default:
+					return false
+				}
+			}
+			return true
+		}
+		n := 0
+		seenKey := map[string]int{}
+		for _, c := range eng.Calls(fn) {
+			call, ok := c.(*ssa.Call)
+			if !ok {
+				continue
+			}
+			g := call.Call.StaticCallee()
+			if g == nil || g.Name() != sib[2] || len(call.Call.Args) != 3 {
+				continue
+			}
+			pt := paramIndex(fn, call.Call.Args[0])
+			if pt < 0 || pt > 3 || !flowsOnlyToReturn(call, 0) {
+				continue
+			}
+			n++
+			key := fmt.Sprintf("%s/single(%s)", short(fn), fn.Params[pt].Name())
+			if seenKey[key]++; seenKey[key] > 1 {
+				key = fmt.Sprintf("%s#%d", key, seenKey[key])
+			}
+			edges := mustEdges(call.Block())
+			underGuard := false
+			for _, gd := range guards {
+				if gd.block == nil || (gd.a != pt && gd.b != pt) {
+					continue
+				}
+				for _, e := range edges {
+					if e == [2]int{gd.block.Index, 0} {
+						underGuard = true
+					}
+				}
+			}
+			if underGuard {
+				r.OK(rn, key, p.Pos(call.Pos()), true, "under the zero-length guard of the point's own segment")
+				continue
+			}
+			params := map[ssa.Value]bool{}
+			for _, e := range edges {
+				if cc, ok := eng.EdgeCmp(fn.Blocks[e[0]], e[1]); ok {
+					if v, k, ok := cmpOf(cc); ok && (k == 0 || k == 1) && isParam(v) {
+						params[v] = true
+					}
+				}
+			}
+			r.Check(len(params) >= 2, rn, key, p.Pos(call.Pos()), true, "both clamped parameters are range-tested on every path to this result",
+				fmt.Sprintf("the result at %s is the distance of the single end point %s to the other segment, but the paths to it range-test %d clamped parameter(s) only: when both parameters of the closest approach are out of range the minimum may lie at an end point of the other segment (e.g. (0,0,0)-(10,0,0) against (2,3,0)-(9,10,0))", p.Pos(call.Pos()), fn.Params[pt].Name(), len(params)))
+		}
+		if n == 0 {
+			r.Bad(rn, short(fn)+"/single", p.Pos(fn.Pos()), "no single-end-point result found (the zero-length guards return one each): the rule has lost its anchor")
+		}
+	}
 }
